@@ -31,7 +31,8 @@ def var_case(draw):
         S = draw(st.integers(2, 4))
         samples = draw(gens.array((S, sv.m, sv.n), 0.0, 1.0, styles=("raw",)))
     use_l1 = draw(st.booleans())
-    return dict(system=sysd, rows=rows, eps_kind=ek, eps=eps_abs, samples=samples, use_l1=use_l1, l1_t=draw(st.floats(0.0, 1.0)),
+    W = draw(st.one_of(st.none(), gens.array((sv.m,), 0.4, 2.5, styles=("raw",))))
+    return dict(system=sysd, rows=rows, eps_kind=ek, eps=eps_abs, samples=samples, use_l1=use_l1, l1_t=draw(st.floats(0.0, 1.0)), W=W,
                 l2_eps=draw(gens.log_uniform(1e-4, 1e-2)), l1_eps=draw(gens.log_uniform(1e-3, 1e-1)),
                 accuracy=draw(st.sampled_from(["high", "high", "default"])))
 
@@ -84,7 +85,8 @@ def body_var(case):
     ek = case["eps_kind"]
     l2_eps, l1_eps = case["l2_eps"], case["l1_eps"]
     high = case["accuracy"] == "high"
-    w = np.ones(sv.m)
+    w = np.ones(sv.m) if case.get("W") is None else np.maximum(np.asarray(case["W"], dtype=float), 0.4)
+    w_arg = None if case.get("W") is None else w
     # reference fits and L1 request
     refs = [bvls(sv.Ap, sv.basep, sv.lb, sv.ub, b, w) for b in B]
     if case["use_l1"] and any(eo > 1e-9 * sv.extent for _, eo in refs):
@@ -127,7 +129,7 @@ def body_var(case):
     with calling(f"minimize_variance(Epsilon={ek})"):
         if ek in ("unc2d", "unc3d", "none"):
             import dreye
-            est = sv.make_estimator(with_system=False)
+            est = sv.make_estimator(w=w_arg, with_system=False)
             if est_unc is not None:
                 est.register_uncertainty(est_unc)
             src = np.zeros((sv.n, sv.n + 2))
@@ -138,10 +140,10 @@ def body_var(case):
             from dreye.api.optimize.lsq_linear import lsq_linear_minimize
 
             Earg = "heteroscedastic" if ek == "hetero" else (None if ek == "none_fn" else eps_abs)
-            X, Bp, Bv = lsq_linear_minimize(sv.A, B, Earg, l2_eps=l2_eps, L1=L1, l1_eps=l1_eps, return_pred=True, **sv.kwargs(), **opt)
+            X, Bp, Bv = lsq_linear_minimize(sv.A, B, Earg, W=w_arg, l2_eps=l2_eps, L1=L1, l1_eps=l1_eps, return_pred=True, **sv.kwargs(), **opt)
     X, Bp, Bv = np.asarray(X), np.asarray(Bp), np.asarray(Bv)
     check(X.shape == (B.shape[0], sv.n) and Bp.shape == B.shape and Bv.shape == B.shape, "var:shape", f"{X.shape} {Bp.shape} {Bv.shape}")
-    labs = sv.labels() + [f"eps:{ek}", "L1" if L1 is not None else "noL1", "acc:high" if high else "acc:default"]
+    labs = sv.labels() + [f"eps:{ek}", "L1" if L1 is not None else "noL1", "acc:high" if high else "acc:default", "W" if w_arg is not None else "noW"]
     rng = sv.ub - sv.lb
     tolx = (1e-5 if high else 1e-2) * float(np.max(rng))
     check(np.all(X >= sv.lb - tolx) and np.all(X <= sv.ub + tolx), "var:bounds", f"intensities {X.tolist()} outside [{sv.lb.tolist()}, {sv.ub.tolist()}]")
@@ -192,7 +194,7 @@ RULE = (
     "Hypothesis-generated under- and exactly-determined well-scaled systems (2-4 receptors, up to 3 surplus sources, lb zero/positive, finite ub, K "
     "none/scalar/vector/matrix, baseline), in- and out-of-gamut targets, variance model in {None, 'heteroscedastic', explicit matrix, "
     "derived from a 2-D filter standard deviation, derived from 3-D filter samples}, with/without an L1 request placed inside the achievable "
-    "range, l2_eps in [1e-4,1e-2]; high-accuracy CLARABEL pass-through (2/3) and default settings (1/3). Oracle: BVLS for the best achievable "
+    "range, optional receptor weights in [0.4,2.5], l2_eps in [1e-4,1e-2]; high-accuracy CLARABEL pass-through (2/3) and default settings (1/3). Oracle: BVLS for the best achievable "
     "error; SLSQP witnesses (verified feasible) for the minimal variance; closed form K^2-propagation for the reported variance. "
     "Non-trivial = the variance optimum is below the ordinary fit's variance, an L1 request is active, or a variance matrix is propagated through K."
 )
